@@ -56,6 +56,8 @@ class GetNextTasks(Unit):
             "an entry carrying retry is offered with delay = retry.delay or 0"},
         "C11.gnt.contained": {"props": ["C11"], "text":
             "a rendering exception never escapes: it is logged with the task id and route, failed is requested and nothing is offered"},
+        "C04.gnt.failed_returns_nothing": {"props": ["C04", "C11"], "text":
+            "a call that itself fails the workflow (rendering error) offers nothing: status failed at exit and not at entry => returns []"},
         "C19.gnt.sorted": {"props": ["C19", "C08"], "text":
             "offered tasks are sorted by (id, route)"},
         "C03.gnt.progress": {"props": ["C03", "C01"], "text":
@@ -176,6 +178,8 @@ class GetNextTasks(Unit):
             if raised is not None:
                 return
 
+            ctx.oblige("C04.gnt.failed_returns_nothing",
+                       not (ws.status == st.FAILED and status_c != st.FAILED) or res == [], None, info)
             # C04 guard
             guard_closed = z3.And(z3.BoolVal(not offering),
                                   z3.Not(z3.And(z3.BoolVal(status_c == st.FAILED), any_rof_ready)))
